@@ -1031,8 +1031,25 @@ func streamCache(o opts, focus string) {
 				_, was := r.latest[k]
 				sawUpd = sawUpd || was
 				r.step(w, opSet, k, r.pickTTL(rng), r.pickCost(rng, k), 0)
-			case x < 52:
+			case x < 46:
 				r.step(w, opGet, k, 0, 0, 0)
+			case x < 52:
+				// skewed reads of resident keys: frequency gaps for LFU, recency for LRU, visited bits / promotions for Sieve
+				res := r.resident()
+				if len(res) == 0 {
+					r.step(w, opGet, k, 0, 0, 0)
+					break
+				}
+				ks := make([]int, 0, len(res))
+				for rk := range res {
+					ks = append(ks, rk)
+				}
+				sort.Ints(ks)
+				hot := ks[rng.Intn(len(ks))]
+				for j, n := 0, 1+rng.Intn(4); j < n; j++ {
+					r.step(w, opGet, hot, 0, 0, 0)
+				}
+				r.m.count("hot_read_bursts")
 			case x < 58:
 				r.step(w, opGetTTL, k, 0, 0, 0)
 			case x < 63:
